@@ -87,12 +87,15 @@ def gen(rng, size='small'):
     nres = rng.choice([1, 2, 2, 3])
     names = list(range(nres))
     unit = rng.choice([8, 8, 4])
+    # a sixth of the scenarios are full of reservations that hold nothing (empty / all-zero requests) and of merges, so that
+    # several empty reservation objects coexist and are merged into, released and observed afterwards
+    zeroish = rng.random() < 0.17
 
     def amount(allow_bad=True):
         r = rng.random()
         if allow_bad and r < 0.04:
             return -unit * rng.randint(1, 2)
-        if r < 0.12:
+        if r < (0.5 if zeroish else 0.12):
             return 0
         return unit * rng.choice([1, 1, 1, 2, 2, 3])
 
@@ -118,7 +121,7 @@ def gen(rng, size='small'):
             a = unit * rng.choice([1, 1, 2, -1, -1, -2, -4])
             return ('add', a_name(), a)
         if r < 0.40:
-            return ('reserve', rng.randint(0, 3), a_req() if rng.random() < 0.97 else [])
+            return ('reserve', rng.randint(0, 3), a_req() if rng.random() < (0.8 if zeroish else 0.97) else [])
         if r < 0.55:
             return ('release_all', rng.randint(0, 3))
         if r < 0.72:
@@ -128,7 +131,7 @@ def gen(rng, size='small'):
             if rng.random() < 0.08:
                 req = []          # release({}): a partial release of nothing
             return ('release', rng.randint(0, 3), req)
-        if r < 0.78:
+        if r < 0.78 or (zeroish and r < 0.9):
             a = rng.randint(0, 3)
             b = rng.choice([x for x in range(4) if x != a])
             return ('merge', a, b)
